@@ -153,7 +153,7 @@ Lemma ok_rs_retry code why s :
 Proof.
   unfold rs_retry. pose proof (ok_rs_reset s) as H0. destruct (rs_reset src c s) as [s1 o1]. cbn [fst snd] in H0.
   destruct (retry s1) as [[|n]|]; cbn [fst snd]; auto.
-  destruct (negb (retry_check src c code why (s1 <| retry := Some n |>))); cbn [fst snd].
+  destruct (negb (retry_check src c code why (s1 <| retry := Some n |>)) || retry_disabled src c); cbn [fst snd].
   - eapply R_trans with (o2 := []) in H0; [rewrite app_nil_r in H0; exact H0|]. apply R_of_eq; reflexivity.
   - destruct (negb (can_create c (s1 <| retry := Some n |>))); cbn [fst snd].
     + eapply R_trans with (o2 := []) in H0; [rewrite app_nil_r in H0; exact H0|]. apply R_of_eq; reflexivity.
@@ -612,19 +612,29 @@ Theorem retry_response_http : forall src c z why s,
   c_http c = true -> status_var s = Some z -> retry_check src c (Some z) why s = retry_rule c (Some z) why.
 Proof. intros src c z why s H Hv. unfold retry_check, mapped_status. rewrite H, Hv. reflexivity. Qed.
 
+(* a request that carries proxy_disable_retry is never retried: every route, every reason or status, every state *)
+Theorem disabled_request_never_retried : forall src c code why s,
+  disable_retry_first src = true -> c_disable_retry c = true ->
+  let '(_, _, r) := rs_retry src c code why s in r <> RShould.
+Proof.
+  intros src c code why s Hf Hd. unfold rs_retry. destruct (rs_reset src c s) as [s1 o1].
+  destruct (retry s1) as [[|n]|]; try discriminate.
+  unfold retry_disabled. rewrite Hf, Hd. cbn [andb orb]. rewrite orb_true_r. discriminate.
+Qed.
+
 Theorem budget_def : forall src c, budget src c = Nat.max (min_budget src) (c_num_retries c).
 Proof. reflexivity. Qed.
 
 (* ---------- retry(): admission against the Retries resource ---------- *)
 Theorem retry_threshold : forall src c code why s n,
   0 < c_max_retries c -> retry s = Some (S n) -> retry_check src c code why s = true -> 0 <= rc s -> reserved s = false ->
-  reset_guarded src = true ->
+  reset_guarded src = true -> retry_disabled src c = false ->
   let '(s', o, r) := rs_retry src c code why s in
   (rc s < c_max_retries c -> r = RShould /\ rc s' = rc s + 1 /\ reserved s' = true) /\
   (c_max_retries c <= rc s -> r = ROver /\ rc s' = rc s /\ reserved s' = false).
 Proof.
-  intros src c code why s n Hm Hr Hc H0 Hres Hg. unfold rs_retry, rs_reset. rewrite Hg. unfold when. rewrite Hres.
-  rewrite Hr. change (retry_check src c code why (s <| retry := Some n |>)) with (retry_check src c code why s). rewrite Hc. cbn [negb].
+  intros src c code why s n Hm Hr Hc H0 Hres Hg Hdis. unfold rs_retry, rs_reset. rewrite Hg. unfold when. rewrite Hres.
+  rewrite Hr. change (retry_check src c code why (s <| retry := Some n |>)) with (retry_check src c code why s). rewrite Hc, Hdis. cbn [negb orb].
   unfold can_create. cbn [rc]. change (rc (s <| retry := Some n |>)) with (rc s).
   assert (E0 : (c_max_retries c =? 0) = false) by (apply Z.eqb_neq; lia).
   assert (E1 : (rc s <? 0) = false) by (apply Z.ltb_ge; lia).
@@ -636,7 +646,7 @@ Qed.
 
 Theorem retry_should_spec : forall src c code why s,
   let '(s', _, r) := rs_retry src c code why s in
-  r = RShould -> retry_check src c code why s = true /\ exists n, retry s = Some (S n) /\ retry s' = Some n.
+  r = RShould -> retry_check src c code why s = true /\ retry_disabled src c = false /\ exists n, retry s = Some (S n) /\ retry s' = Some n.
 Proof.
   intros src c code why s. unfold rs_retry.
   assert (Hk : retry (fst (rs_reset src c s)) = retry s).
@@ -653,8 +663,9 @@ Proof.
   { unfold retry_check, mapped_status. change (status_var (s1 <| retry := Some n |>)) with (status_var s1). rewrite Hv. reflexivity. }
   rewrite Hq.
   destruct (negb (retry_check src c code why s)) eqn:Ec; [discriminate|].
+  destruct (retry_disabled src c) eqn:Ed; [discriminate|]. cbn [orb].
   destruct (negb (can_create c (s1 <| retry := Some n |>))); [discriminate|].
-  unfold res_inc. destruct (res_off src c); intros _; (split; [now apply negb_false_iff in Ec|exists n; rewrite <- Hk; auto]).
+  unfold res_inc. destruct (res_off src c); intros _; (split; [now apply negb_false_iff in Ec|split; [reflexivity|exists n; rewrite <- Hk; auto]]).
 Qed.
 
 Theorem global_timeout_not_retried : forall src c s,
